@@ -121,15 +121,19 @@ def check_detect_inspect(s, rng, tmpdir, idx, inspect):
     # make sure the interesting pattern good-bad-good occurs often
     if rng.random() < 0.4 and len(files) >= 3:
         files[1] = (os.path.join(tmpdir, 'missing-mid.mos.xml'), 'missing')
-    cmd = 'inspect' if inspect else 'detect'
+    judge_detect_inspect(s, 'inspect' if inspect else 'detect', files)
+
+
+def judge_detect_inspect(s, cmd, files):
+    inspect = cmd == 'inspect'
     argv = [cmd, '-f'] + [f for f, _ in files]
     rc, out, err = run_cli(argv)
     lines = out.splitlines()
     pos = 0
     pattern = ''.join({'valid': 'v', 'completed': 'c', 'nonxml': 'x', 'unknown': 'u', 'missing': 'm', 'dir': 'd'}[k]
                       for _, k in files)
-    wit = {'type': 'cli', 'argv': argv, 'files': [(f, k, (open(f, 'rb').read().decode('latin-1') if os.path.isfile(f) else None))
-                                                  for f, k in files]}
+    wit = {'type': 'cli', 'judge': 'detect_inspect', 'cmd': cmd, 'argv': argv,
+           'files': [(f, k, (open(f, 'rb').read().decode('latin-1') if os.path.isfile(f) else None)) for f, k in files]}
     problems = []
     MosFile = s.mt.MosFile
     for f, kind in files:
@@ -266,6 +270,13 @@ def check_merge(s, rng, tmpdir, idx):
             with open(outpath, 'wb') as f:
                 f.write(preexisting)
         argv += ['-o', outpath]
+    judge_merge(s, argv, paths, flavour, inc, non_strict, outfile, outpath, preexisting)
+    if os.path.exists(outpath):
+        os.unlink(outpath)
+
+
+def judge_merge(s, argv, paths, flavour, inc, non_strict, outfile, outpath, preexisting):
+    snapshot = [(p, 'merge', open(p, 'rb').read().decode('latin-1') if os.path.isfile(p) else None) for p in paths]
     # what the library computes
     import mosromgr.moscollection as mcmod
     want_text, want_err = None, None
@@ -290,8 +301,10 @@ def check_merge(s, rng, tmpdir, idx):
     s.note_sig(('merge', flavour, inc, non_strict, outfile, type(want_err).__name__ if want_err else 'ok', rc))
     s.hist['cli:merge'] += 1
     s.hist['cli:merge:%s' % ('error' if want_err else 'ok')] += 1
-    wit = {'type': 'cli', 'argv': argv, 'files': [(p, 'merge', open(p, 'rb').read().decode('latin-1') if os.path.isfile(p) else None)
-                                                  for p in paths]}
+    wit = {'type': 'cli', 'judge': 'merge', 'argv': argv,
+           'files': snapshot,
+           'params': {'flavour': flavour, 'inc': inc, 'non_strict': non_strict, 'outfile': outfile, 'outpath': outpath,
+                      'preexisting': None if preexisting is None else preexisting.decode('latin-1')}}
     det = {'flavour': flavour, 'options': {'incomplete': inc, 'non_strict': non_strict, 'outfile': outfile},
            'library': type(want_err).__name__ if want_err else 'ok', 'rc': rc, 'stderr': err[:200]}
     if want_err is None:
@@ -316,8 +329,6 @@ def check_merge(s, rng, tmpdir, idx):
                 s.custom_violation('merge-error-but-output-file-written', dict(det, existed_before=preexisting is not None),
                                    wit, msg_kind='merge', status='-o')
     s.hist['cli:merge:preexisting-outfile'] += int(preexisting is not None)
-    if os.path.exists(outpath):
-        os.unlink(outpath)
 
 
 def check_s3(s, rng, tmpdir, idx):
@@ -367,6 +378,12 @@ def check_s3(s, rng, tmpdir, idx):
         argv += (['-i'] if inc else []) + (['-n'] if non_strict else [])
     listed = [k for k, _ in f3.BUCKETS[bucket] if k.startswith('p/x/') and k.endswith(sfx)]
     want_keys = [keys[0]] if use_key else listed
+    judge_s3(s, argv, cmd, bucket, want_keys, inc, non_strict,
+             ('s3', cmd, use_key, sfx, pass_suffix, inc, non_strict, complete), sfx if pass_suffix else 'default')
+
+
+def judge_s3(s, argv, cmd, bucket, want_keys, inc, non_strict, sig, suffix_label):
+    f3 = K.ensure_fake_s3()
     content = dict(f3.BUCKETS[bucket])
     bad = []
     if cmd == 'merge':
@@ -421,22 +438,20 @@ def check_s3(s, rng, tmpdir, idx):
                 bad.append(('key-outside-the-selection-processed', key))
     EV.drain()
     s.evaluations += 1
-    s.note_sig(('s3', cmd, use_key, sfx, pass_suffix, inc, non_strict, complete, rc, bool(bad)))
+    s.note_sig(tuple(sig) + (rc, bool(bad)))
     s.hist['cli:s3'] += 1
     s.hist['cli:s3:%s' % cmd] += 1
-    s.hist['cli:s3:suffix:%s' % (sfx if pass_suffix else 'default')] += 1
+    s.hist['cli:s3:suffix:%s' % suffix_label] += 1
     for pk, what in bad[:2]:
         s.custom_violation('s3-' + pk, {'what': what, 'argv': argv, 'rc': rc, 'stderr': err[:200]},
-                           {'type': 'cli-s3', 'argv': argv, 'bucket': [(k, b.decode('utf-8', 'replace')) for k, b in f3.BUCKETS[bucket]]},
+                           {'type': 'cli-s3', 'argv': argv, 'cmd': cmd, 'bucket_name': bucket, 'want_keys': want_keys,
+                            'inc': inc, 'non_strict': non_strict, 'page_size': f3.CONFIG['page_size'],
+                            'bucket': [(k, b.decode('latin-1')) for k, b in f3.BUCKETS[bucket]]},
                            msg_kind=cmd, status='s3')
 
 
 def subprocess_samples(s, tmpdir, n):
     """Fresh interpreters running the console-script entry point: true exit statuses."""
-    from ..run import worker_env
-    env = worker_env()
-    env.pop('BBC_MOSROMGR_VERIF', None)
-    code = 'import sys; from mosromgr.cli import main; sys.exit(main())'
     for i in range(n):
         if not s.mine(i):
             continue
@@ -444,48 +459,57 @@ def subprocess_samples(s, tmpdir, n):
         paths, flavour = merge_files(s, rng, tmpdir)
         inc, ns = rng.random() < 0.5, rng.random() < 0.5
         argv = ['merge'] + (['-f'] + paths if paths else []) + (['-i'] if inc else []) + (['-n'] if ns else [])
-        import mosromgr.moscollection as mcmod
-        want_text, want_err = None, None
-        EV.STATE['quiet'] = EV.STATE.get('quiet', 0) + 1
-        try:
-            with W.catch_warnings():
-                W.simplefilter('ignore')
-                try:
-                    if not paths:
-                        raise ValueError('no input')
-                    mc = mcmod.MosCollection.from_files(paths, allow_incomplete=inc)
-                    mc.merge(strict=not ns)
-                    want_text = str(mc)
-                except Exception as e:
-                    want_err = e
-        finally:
-            EV.STATE['quiet'] -= 1
-        EV.drain()
-        try:
-            p = subprocess.run([sys.executable, '-B', '-c', code] + argv, env=env, capture_output=True,
-                               timeout=60, cwd=tmpdir)
-            p.stdout = p.stdout.decode('utf-8', 'replace')
-            p.stderr = p.stderr.decode('utf-8', 'replace')
-        except subprocess.TimeoutExpired:
-            s.inconclusive.append('console-script subprocess timed out')
-            continue
-        s.evaluations += 1
-        s.note_sig(('subprocess', flavour, inc, ns, p.returncode))
-        s.hist['cli:subprocess'] += 1
-        wit = {'type': 'cli', 'argv': argv, 'files': [(q, 'merge', open(q, 'rb').read().decode('latin-1') if os.path.isfile(q) else None)
-                                                      for q in paths]}
-        det = {'flavour': flavour, 'library': type(want_err).__name__ if want_err else 'ok', 'rc': p.returncode,
-               'stderr': p.stderr[-200:]}
-        if want_err is None:
-            if p.returncode != 0:
-                s.custom_violation('process-exit-status-nonzero-on-success', det, wit, msg_kind='merge', status='subprocess')
-            elif p.stdout != want_text + '\n':
-                s.custom_violation('process-stdout-differs-from-library-result', det, wit, msg_kind='merge', status='subprocess')
-        else:
-            if p.returncode != 2:
-                s.custom_violation('process-exit-status-not-2-on-error', det, wit, msg_kind='merge', status=flavour)
-            if not p.stderr.strip():
-                s.custom_violation('process-error-without-stderr-message', det, wit, msg_kind='merge', status=flavour)
+        judge_subprocess(s, argv, paths, flavour, inc, ns, tmpdir)
+
+
+def judge_subprocess(s, argv, paths, flavour, inc, ns, cwd):
+    from ..run import worker_env
+    env = worker_env()
+    env.pop('BBC_MOSROMGR_VERIF', None)
+    code = 'import sys; from mosromgr.cli import main; sys.exit(main())'
+    import mosromgr.moscollection as mcmod
+    want_text, want_err = None, None
+    EV.STATE['quiet'] = EV.STATE.get('quiet', 0) + 1
+    try:
+        with W.catch_warnings():
+            W.simplefilter('ignore')
+            try:
+                if not paths:
+                    raise ValueError('no input')
+                mc = mcmod.MosCollection.from_files(paths, allow_incomplete=inc)
+                mc.merge(strict=not ns)
+                want_text = str(mc)
+            except Exception as e:
+                want_err = e
+    finally:
+        EV.STATE['quiet'] -= 1
+    EV.drain()
+    try:
+        p = subprocess.run([sys.executable, '-B', '-c', code] + argv, env=env, capture_output=True,
+                           timeout=60, cwd=cwd)
+        p.stdout = p.stdout.decode('utf-8', 'replace')
+        p.stderr = p.stderr.decode('utf-8', 'replace')
+    except subprocess.TimeoutExpired:
+        s.inconclusive.append('console-script subprocess timed out')
+        return
+    s.evaluations += 1
+    s.note_sig(('subprocess', flavour, inc, ns, p.returncode))
+    s.hist['cli:subprocess'] += 1
+    wit = {'type': 'cli', 'judge': 'subprocess', 'argv': argv,
+           'params': {'flavour': flavour, 'inc': inc, 'non_strict': ns},
+           'files': [(q, 'merge', open(q, 'rb').read().decode('latin-1') if os.path.isfile(q) else None) for q in paths]}
+    det = {'flavour': flavour, 'library': type(want_err).__name__ if want_err else 'ok', 'rc': p.returncode,
+           'stderr': p.stderr[-200:]}
+    if want_err is None:
+        if p.returncode != 0:
+            s.custom_violation('process-exit-status-nonzero-on-success', det, wit, msg_kind='merge', status='subprocess')
+        elif p.stdout != want_text + '\n':
+            s.custom_violation('process-stdout-differs-from-library-result', det, wit, msg_kind='merge', status='subprocess')
+    else:
+        if p.returncode != 2:
+            s.custom_violation('process-exit-status-not-2-on-error', det, wit, msg_kind='merge', status=flavour)
+        if not p.stderr.strip():
+            s.custom_violation('process-error-without-stderr-message', det, wit, msg_kind='merge', status=flavour)
 
 
 def run(s):
@@ -521,6 +545,12 @@ def run(s):
 
 def replay(s, data):
     w = data['witness']
+    if w.get('type') == 'cli-s3':
+        f3 = K.ensure_fake_s3()
+        f3.BUCKETS[w['bucket_name']] = [(k, b.encode('latin-1')) for k, b in w['bucket']]
+        f3.CONFIG['page_size'] = w.get('page_size', 3)
+        judge_s3(s, w['argv'], w['cmd'], w['bucket_name'], w['want_keys'], w['inc'], w['non_strict'], ('s3', 'replay'), 'replay')
+        return
     if w.get('type') != 'cli':
         s.notes.append('witness type not replayable')
         return
@@ -530,15 +560,39 @@ def replay(s, data):
             open(p, 'wb').write(content.encode('latin-1'))
         elif k == 'dir':
             os.makedirs(p, exist_ok=True)
-    rc, out, err = run_cli(w['argv'])
-    s.notes.append({'rc': rc, 'stdout': out[:2000], 'stderr': err[:2000]})
-    s.evaluations += 1
-    for p, k, content in w['files']:
-        try:
-            if os.path.isfile(p):
-                os.unlink(p)
-        except OSError:
-            pass
+    try:
+        if w.get('judge') == 'detect_inspect':
+            judge_detect_inspect(s, w['cmd'], [(p, k) for p, k, _ in w['files']])
+        elif w.get('judge') == 'merge':
+            q = w['params']
+            pre = None if q['preexisting'] is None else q['preexisting'].encode('latin-1')
+            if q['outfile']:
+                os.makedirs(os.path.dirname(q['outpath']), exist_ok=True)
+                if pre is not None:
+                    open(q['outpath'], 'wb').write(pre)
+                elif os.path.exists(q['outpath']):
+                    os.unlink(q['outpath'])
+            judge_merge(s, w['argv'], [p for p, _, _ in w['files']], q['flavour'], q['inc'], q['non_strict'],
+                        q['outfile'], q['outpath'], pre)
+            if os.path.exists(q['outpath']):
+                os.unlink(q['outpath'])
+        elif w.get('judge') == 'subprocess':
+            q = w['params']
+            judge_subprocess(s, w['argv'], [p for p, _, _ in w['files']], q['flavour'], q['inc'], q['non_strict'],
+                             tempfile.gettempdir())
+        else:
+            rc, out, err = run_cli(w['argv'])
+            s.notes.append({'rc': rc, 'stdout': out[:2000], 'stderr': err[:2000]})
+            s.evaluations += 1
+    finally:
+        for p, k, content in w['files']:
+            try:
+                if os.path.isfile(p):
+                    os.unlink(p)
+                elif k == 'dir' and os.path.isdir(p):
+                    os.rmdir(p)
+            except OSError:
+                pass
 
 
 def gates(agg, tier):
